@@ -88,7 +88,20 @@ pub fn render(rng: &mut Rng, t: &Term, vars: &mut Vec<(String, String)>) -> Stri
             if rng.chance(1, 3) { format!("${{{}}}", t.nth(1).as_str()) } else { format!("${} ", t.nth(1).as_str()) }
         }
         "cmd" => format!("[ident {}]", Value::from(vec![Value::from(t.nth(1).as_str())]).as_str()),
-        "rec" => format!("[rec k{} {}]", t.nth(1).as_int(), Value::from(vec![Value::from(t.nth(2).as_str())]).as_str()),
+        "rec" => {
+            // the recorder yields its last argument; one call in three carries extra words that are
+            // well formed but unusual (a quote or an open brace inside a word, a nested command, a
+            // backslash-escaped brace), so that a skipped script is still read by the script grammar
+            let extra = if rng.chance(1, 3) {
+                ["x{y ", "6\"w ", "a\"b\"c ", "{p q} ", "\"r s\" ", "\\{ ", "[ident z] ", "x}y ", "{a\\}b} ", "$vq ", "{*}{u v} "][rng.below(11)]
+            } else {
+                ""
+            };
+            if extra == "$vq " {
+                vars.push(("vq".to_string(), "1".to_string()));
+            }
+            format!("[rec k{} {}{}]", t.nth(1).as_int(), extra, Value::from(vec![Value::from(t.nth(2).as_str())]).as_str())
+        }
         "qrec" => format!("\"[rec k{} {}]\"{}", t.nth(1).as_int(), Value::from(vec![Value::from(t.nth(2).as_str())]).as_str(), pad(rng)),
         "qunset" => format!("\"$nosuch{}\"{}", t.nth(1).as_int(), pad(rng)),
         "unset" => format!("$nosuch{} ", t.nth(1).as_int()),
